@@ -59,7 +59,7 @@ def r2(run, db):
                 se = (site.bb, info["edges"]["Some"])
                 passes = all_paths_from_edge_pass(f, se, [u.site])
         run.check(passes, "rollback-complete:%s" % f.id, "on the Err edge a named actor always passes through unregister before returning", "a named actor can leave the Err edge without unregistering", u.where())
-        okn = any(r["k"] == "arg" and r["local"] == 1 for r in f.origins(u.args[0], through=lambda cc: 0 if cc.matches("Clone|AsRef|Deref|String") else None))
+        okn = any(r["k"] == "arg" and r["local"] == 1 for r in f.origins(u.args[0], through=lambda cc: 0 if cc.matches(r"Clone|AsRef|Deref|String|as_ref$|as_deref$|cloned$|to_owned$|to_string$|Borrow") else None))
         run.check(okn, "rollback-own-name:%s" % f.id, "the rollback unregisters the constructor's own name parameter", "rollback uses a different name", u.where())
         errs = [site for site, s in f.aggregates(adt="std::result::Result", variant="Err") if f.edge_dominates(ee, site)]
         run.check(bool(errs), "rollback-returns-err:%s" % f.id, "the Err edge returns Err", None, f.where())
